@@ -154,6 +154,10 @@ func replayOther(res *Result, rf replayFile, text string) {
 				res.violate(Violation{Property: "C16", Kind: v.Kind, Reason: "same output again"})
 			}
 		}
+	case "cli_reader":
+		if problem, _, osLike, _, _, _ := readerCase([]byte(text)); problem != "" && osLike {
+			res.violate(Violation{Property: "C16", Kind: v.Kind, Reason: problem})
+		}
 	case "cli_io":
 		// judged by TLC (CliInput.tla) on the recorded observation; reproduced when the binary behaves the same again
 		bin := os.Getenv("VERIF_CLI_BIN")
